@@ -53,6 +53,7 @@ def blocks(tier, seed):
     for mask in ([False, False], [True, True]):
         out.append({"kind": "bigsmall", "mask": mask, "phase": ph})
     out.append({"kind": "shared-args", "phase": ph})
+    out.append({"kind": "shared-grid", "phase": ph})
     for k in ("polar", "sph"):
         out.append({"kind": k, "phase": ph})
     for pz in (False, True):
@@ -111,6 +112,18 @@ def cases(block):
         for n in (2, 3):
             for idx in itertools.permutations(range(len(probes)), n):
                 yield {"shared_args_sequence": [probes[i] for i in idx]}
+    elif k == "shared-grid":
+        # the caller keeps ONE grid object and analyses several images on it, fresh process per sequence
+        gc = {"kind": "cyl", "shape": [12, 64], "R": 12.0, "z": [-4.0, 28.0], "periodic_z": False}  # dz = 0.5
+        gp = {"kind": "cart", "shape": [20, 16], "dx": [1.0, 1.25], "origin": [0.0, 0.0], "periodic": [True, False]}
+        gs = {"kind": "sph", "n": 28, "R": 15.0, "r0": 1.0}
+        seqs = [[{"grid": gc, "drops": [[[0.0, 0.0, 6.0 + 4.3 * i + ph], 4.0, 1.0]], "rule": 0.5, "intensity": "standard", "classes": ["on-axis"], "share_grid": True} for i in range(4)],
+                [{"grid": dict(gc, periodic_z=True), "drops": [[[0.0, 0.0, 7.0 + 3.1 * i + ph], 3.5, 1.2]], "rule": "extrema", "intensity": "standard", "classes": ["on-axis"], "share_grid": True} for i in range(4)],
+                [{"grid": gp, "drops": [[[9.3 + 0.6 * i + ph, 10.2], 4.5, 1.0 + 0.25 * (i % 2)]], "rule": 0.5, "intensity": "standard", "classes": ["interior", "interior"], "share_grid": True} for i in range(4)],
+                [{"grid": gs, "drops": [[[0.0, 0.0, 0.0], 1.0 + (3.2 + 0.9 * i) * 0.5, 0.5 + 0.1 * i]], "rule": 0.5, "intensity": "standard", "classes": ["centred"], "share_grid": True} for i in range(4)]]
+        for seq in seqs:
+            for idx in itertools.permutations(range(4), 4):
+                yield {"plain_sequence": [seq[i] for i in idx] * 3}  # twelve analyses on the one grid object
     elif k == "rect":
         # strongly non-square / non-cubic boxes: the period differs from axis to axis
         shape, mask = block["shape"], block["mask"]
@@ -180,10 +193,15 @@ def run_case(case, ctx):
         _SHARED.clear()
         ctx.count("shared-options-sequences")
         return core.run_sequence_in_fork(one, case["shared_args_sequence"], ctx, tag={"history": "shared-refine-args"})
+    if "plain_sequence" in case:
+        from mcx import core
+
+        ctx.count("shared-grid-sequences")
+        return core.run_sequence_in_fork(run_case, case["plain_sequence"], ctx, tag={"history": "shared-grid-object"})
     g = case["grid"]
     kind = g["kind"]
     dim = geom.dim_of(g)
-    grid = geom.make_grid(g)
+    grid = geom.make_grid(g, share=bool(case.get("share_grid")))
     drops = case["drops"]
     it = case["intensity"]
     tags = {"grid": kind, "rule": str(case["rule"]), "intensity": it.split("-", 1)[-1] if it != "standard" else it, "n": len(drops)}
@@ -266,4 +284,4 @@ def run_case(case, ctx):
 
 def expected_positive(tier):
     return ["C05.count", "C05.position", "C05.radius", "C05.width", "C05.inbox", "across-or-outside-periodic-boundary", "fitted-levels", "two-droplets",
-            "small-droplet-within-one-big-radius-of-big-surface", "straddling-on-non-square-box", "annular-grid", "cylindrical-z-range-excluding-0", "shared-options-sequences"]
+            "small-droplet-within-one-big-radius-of-big-surface", "straddling-on-non-square-box", "annular-grid", "cylindrical-z-range-excluding-0", "shared-options-sequences", "shared-grid-sequences"]
